@@ -25,7 +25,10 @@ func main() {
 			"Numeric estimator: data multisets x weights x 2 starting points x {newton,bfgs}; non-trivial when the estimator stopped for a reason other than its iteration budget (it claims convergence). " +
 			"EM: every data set (multisets for mixtures, sequences and pairs of sequences for HMMs) of <=4 (thorough 5) observations over a 3-value alphabet x every initial model of a 3-point lattice per parameter; every step of every trajectory is checked; a trajectory is non-trivial when the likelihood strictly increased in at least one step. " +
 			"Summarised data sets: scalarEstimator.DiscreteMixtureEstimator (poisson, categorical, geometric, negative binomial with fixed r; k=2, thorough 3) x ALL multisets of 1..5 (thorough 6) observations over a 3-value alphabet (repeated values included) x the initial lattice, driven through SetData+Estimate (MixtureSummarizedDataSet) and through EstimateOnData (promoted: not summarised); " +
-			"vectorEstimator.NewHmmSummarizedDataSet (no estimator of the library constructs it) through generic.BaumWelchAlgorithm with a core repeating HmmEstimator's steps; same EM oracle, plus the differential against the standard estimator on the expanded data, non-trivial when the data contain a repeated observation",
+			"vectorEstimator.NewHmmSummarizedDataSet (no estimator of the library constructs it) through generic.BaumWelchAlgorithm with a core repeating HmmEstimator's steps; same EM oracle, plus the differential against the standard estimator on the expanded data, non-trivial when the data contain a repeated observation. " +
+			"Shift invariance of log-weights: every closed-form family x every data set of size 1..3 x every weight vector in {0,log 1/2,log 1/4}^n x Estimate and batch interface x common offset c in {-745,-700,-300,+300,+700}: the estimate equals the one for c=0 within 1e-9 (data without an admissible maximiser excluded). " +
+			"matrixEstimator: HmmEstimator (m=2; ScalarId emissions of normals / normal x poisson, and NESTED vector-mixture emissions) on all sequences of <=4 (thorough 5) points of a 3-point alphabet in R^2 and pairs of short sequences x transition lattice x emission lattice; MixtureEstimator over VectorId components (closed-form and nested rows) on all multisets of <=3 2x2 observations; nested scalar-in-scalar and vector-in-vector mixtures. " +
+			"Option lattice: OptimizeEmissions x OptimizeTransitions for the vector HMM (estimator fields), the direct generic.BaumWelchAlgorithm route (arguments) and the matrix HMM; OptimizeEmissions x OptimizeWeights for scalar, vector and matrix mixtures; same EM oracle plus: the block that is not optimised is bitwise the initial one at every hook call",
 		Assume: []string{
 			"thread pool of size one (schedule independence is C17)",
 			"EM monotonicity is demanded for component families whose M-step is the exact maximiser of the expected complete-data log-likelihood over the configured box: normal with sigma>=sigmaMin (clamping is the exact box-constrained maximiser, and every initial sigma of the lattice lies in the box), poisson, categorical, products of these, and one EM step of an inner mixture (generalised EM); numeric M-steps are only checked for stationarity of the stand-alone numeric estimator",
@@ -34,6 +37,8 @@ func main() {
 			"bivariate normal with an active variance bound: only the reference-free perturbation test applies (no closed form assumed)",
 			"differential summarised/standard: hook call i of the two runs must agree within 1e-9 (relative) whenever call i-1 agreed within 1e-12; a slow drift of rounding differences along a trajectory is counted, not reported",
 			"negative binomial components: r is fixed by the estimator, the M-step over p is exact",
+			"log-weights are defined up to a common constant (all estimators work on the log scale; EM hands over log-responsibilities of arbitrary common magnitude), for Estimate and for the batch interface alike; the numeric estimator is exempt (its absolute stopping tolerance refers to the weighted likelihood itself)",
+			"with OptimizeEmissions/OptimizeTransitions/OptimizeWeights=false the remaining updates are still a (generalised) EM step; the start probabilities of an HMM are always optimised",
 		},
 		Run: func(c *vf.Ctx) {
 			thorough := c.Thorough()
@@ -52,6 +57,8 @@ func main() {
 				return
 			}
 			switch {
+			case ac.Est != nil && ac.Est.Shift != 0:
+				runShiftCase(c, ac.Est, 0)
 			case ac.Est != nil:
 				runEstCase(c, ac.Est, 0)
 			case ac.Num != nil:
